@@ -21,6 +21,9 @@ RECS = [
     {"name": [b"b"] + SVC, "class": 1, "ttl": 0, "cf": False, "rdata": ("T", "A", [("I", 0x0A000002)])},
     # a sibling of the second record: same owner, type and class, other data
     {"name": [b"a"] + SVC, "class": 1, "ttl": 0, "cf": False, "rdata": ("T", "A", [("I", 0x0A000003)])},
+    {"name": [b"a"] + SVC, "class": 1, "ttl": 0, "cf": False, "rdata": ("T", "NSEC", [("N", [b"a"] + SVC), ("L", [(0, b"\x40")])])},
+    {"name": [b"b"] + SVC, "class": 1, "ttl": 0, "cf": False, "rdata": ("U", 65280, b"\x01\x02")},
+    {"name": [b"b"] + SVC, "class": 1, "ttl": 0, "cf": False, "rdata": ("T", "TXT", [("L", [(0, b"k=v")])])},
 ]
 INFO = {}
 
